@@ -2,6 +2,7 @@ package rules
 
 import (
 	"encoding/json"
+	"strings"
 	"fmt"
 	"go/constant"
 	"go/types"
@@ -308,6 +309,14 @@ func FlowSpecsC03(c *Ctx) ([]FlowSpec, []string) {
 				specs = append(specs, FlowSpec{Func: shortFn(fn), Callee: all})
 			}
 		}
+		if it.Kind == "scalar" {
+			// the byte layout of scalar encodings (fixed length, byte order, padding)
+			for _, m := range []string{"MarshalBinary", "UnmarshalBinary", "SetBytes", "setInt", "LittleEndian", "BigEndian"} {
+				if fn := p.Method(it.Named, m); fn != nil && len(fn.Blocks) > 0 && fn.Synthetic == "" {
+					specs = append(specs, FlowSpec{Func: shortFn(fn), Callee: all})
+				}
+			}
+		}
 		if fn := p.Method(it.Named, "Equal"); fn != nil && len(fn.Blocks) > 0 && fn.Synthetic == "" && hasReturn(fn) {
 			reads = append(reads, shortFn(fn))
 		}
@@ -327,6 +336,18 @@ func FlowSpecs(c *Ctx, prop string) ([]FlowSpec, []string) {
 	switch prop {
 	case "C03":
 		return FlowSpecsC03(c)
+	case "C02":
+		// SetBytes / setInt / byte-order helpers of the scalar types: declared byte order, full-width copies
+		all, _ := FlowSpecsC03(c)
+		var out []FlowSpec
+		for _, s := range all {
+			for _, m := range []string{").SetBytes", ").setInt", ").LittleEndian", ").BigEndian"} {
+				if strings.HasSuffix(s.Func, m) {
+					out = append(out, s)
+				}
+			}
+		}
+		return out, nil
 	}
 	return nil, nil
 }
